@@ -1,6 +1,7 @@
 import XvcPipeline.Progress
 import XvcPipeline.Relay
 import XvcPipeline.Demo
+import XvcPipeline.LockOrder
 /-!
 # C11 — `xvc pipeline run` always terminates with a verdict for every step
 
@@ -132,6 +133,66 @@ example : WF demoJoin.n demoJoin.deps ∧ Ranked demoJoin.n demoJoin.deps := by
     · subst h2; simp at hd; rcases hd with rfl | rfl <;> simp
     · simp [h2] at hd
 
+/-! ## No step thread blocks forever on a lock
+
+The scheduler model treats the sections under `dependency_diffs`, `output_diffs`, `current_states`,
+`available_process_slots` and `command_process` as atomic.  That is justified only if no thread can block forever inside
+one.  `Gen.lockEdges` (lib/lock_extract.py, regenerated from the Rust sources on every run) lists every pair
+"lock acquired while a guard of another lock is held" that the sources contain. -/
+
+/-- the extracted lock-nesting table has no self edge (no lock is re-acquired by a thread that holds it: a second `read()`
+    on a std RwLock blocks behind a queued writer) and no cycle: its transitive closure is irreflexive -/
+theorem C11_lock_order :
+    (lockEdges.all fun e => e.1 != e.2) = true ∧ (allLocks.all fun l => !lockReach l l) = true := by decide
+
+/-- the closure is transitive and contains the table: together with `C11_lock_order` a strict order on the locks in which
+    every nested acquisition goes upwards -/
+theorem C11_lock_order_strict :
+    (allLocks.all fun a => allLocks.all fun b => allLocks.all fun c =>
+      !(lockReach a b && lockReach b c) || lockReach a c) = true ∧
+    (lockEdges.all fun e => lockReach e.1 e.2) = true := by decide
+
+/-- the general theorem (any threads, any locks, readers and writers alike, any moment of any schedule): acquiring only
+    upwards in a strict order excludes every wait-for cycle, including the cycle of length one -/
+theorem C11_lock_order_no_wait_cycle {T L : Type} {holds waits : T → L → Prop} {lt : L → L → Prop}
+    (irrefl : ∀ a, ¬ lt a a) (trans : ∀ a b c, lt a b → lt b c → lt a c)
+    (disc : ∀ t l h, waits t l → holds t h → lt h l) (t : T) : ¬ WaitChain holds waits t t :=
+  no_wait_cycle irrefl trans disc t
+
+/-- hence: ANY set of threads whose nested acquisitions are all in the extracted table (what the extractor establishes
+    for the step threads, the bulletin thread and the main thread of `xvc pipeline run`) never contains a thread that
+    waits, directly or through others, for itself: no deadlock on these locks -/
+theorem C11_no_lock_deadlock {T : Type} (holds waits : T → Lock → Prop)
+    (respects : ∀ t l h, waits t l → holds t h → (h, l) ∈ lockEdges) (t : T) : ¬ WaitChain holds waits t t := by
+  have ho := C11_lock_order.2
+  have hs := C11_lock_order_strict
+  simp only [List.all_eq_true] at ho hs
+  apply no_wait_cycle (lt := fun a b => lockReach a b = true)
+  · intro a h
+    have := ho a (mem_allLocks a)
+    simp [h] at this
+  · intro a b c hab hbc
+    have := hs.1 a (mem_allLocks a) b (mem_allLocks b) c (mem_allLocks c)
+    simpa [hab, hbc] using this
+  · intro t l h hw hh
+    exact hs.2 (h, l) (respects t l h hw hh)
+
+/-- non-vacuity of the discipline, for every edge of the table: a thread that holds `h` and waits for `l` while another
+    thread holds `l` (e.g. `update_command_environment` holding `dependency_diffs`, waiting for `command_process`)
+    respects the table -/
+example (h l : Lock) (he : (h, l) ∈ lockEdges) : ∀ (t : Bool) (l' h' : Lock),
+    (t = true ∧ l' = l) → ((t = true ∧ h' = h) ∨ (t = false ∧ h' = l)) → (h', l') ∈ lockEdges := by
+  intro t l' h' hw hh
+  obtain ⟨rfl, rfl⟩ := hw
+  rcases hh with ⟨_, rfl⟩ | ⟨h1, _⟩
+  · exact he
+  · cases h1
+
+/-- the recursive acquisition: a thread that holds a guard of a lock and waits for the same lock (a second `read()` behind
+    a queued writer) is a wait-for cycle of length one — why a self edge in the table must break `C11_lock_order` -/
+example (l : Lock) : WaitChain (fun (_ : Unit) (x : Lock) => x = l) (fun (_ : Unit) (x : Lock) => x = l) () () :=
+  .single ⟨l, rfl, rfl⟩
+
 end Sched
 
 /-! ## Relaying the output never blocks the step -/
@@ -183,6 +244,10 @@ end Relay
 #print axioms Sched.C11_terminates
 #print axioms Sched.C11_thread_failure_publishes_broken
 #print axioms Sched.C11_F5_unrepaired_counterexample
+#print axioms Sched.C11_lock_order
+#print axioms Sched.C11_lock_order_strict
+#print axioms Sched.C11_lock_order_no_wait_cycle
+#print axioms Sched.C11_no_lock_deadlock
 #print axioms Relay.C11_relay_no_block
 #print axioms Relay.C11_relay_terminates
 #print axioms Relay.C11_relay_sequential_partial
